@@ -4,6 +4,7 @@ package main
 // weedbox dependencies), and function values (field-based, context-insensitive).
 
 import (
+	"fmt"
 	"go/types"
 	"sort"
 	"strings"
@@ -71,6 +72,10 @@ func isFuncType(t types.Type) bool {
 func (g *callGraph) interestingFunc(f *ssa.Function) bool {
 	for f.Parent() != nil {
 		f = f.Parent()
+	}
+	// test code is user code: its closures are external callbacks, not part of the program
+	if f.Pos().IsValid() && strings.HasSuffix(g.p.Fset.Position(f.Pos()).Filename, "_test.go") {
+		return false
 	}
 	if f.Pkg == nil {
 		if o := f.Object(); o != nil && o.Pkg() != nil {
@@ -412,30 +417,63 @@ type ReachInfo struct {
 
 func (g *callGraph) Reach(roots []*ssa.Function, o ReachOpts) *ReachInfo {
 	ri := &ReachInfo{Parent: map[*ssa.Function]*ssa.Function{}, Via: map[*ssa.Function]ssa.Instruction{}}
-	seen := map[*ssa.Function]bool{}
-	var q []*ssa.Function
+	// One level of context for function-typed parameters: when a callee invokes one of
+	// its own func-typed parameters directly, the call is resolved against the actual
+	// argument of the call site through which the callee was entered (exact), instead
+	// of against the union over all of the callee's callers.
+	type item struct {
+		f    *ssa.Function
+		site ssa.CallInstruction // nil: no context
+	}
+	seenF := map[*ssa.Function]bool{}
+	seenCtx := map[string]bool{}
+	var q []item
+	hasFuncParam := func(f *ssa.Function) bool {
+		for _, pr := range f.Params {
+			if isFuncType(pr.Type()) {
+				return true
+			}
+		}
+		return false
+	}
 	push := func(f, from *ssa.Function, via ssa.Instruction) {
-		if f == nil || seen[f] || f.Blocks == nil {
+		if f == nil || f.Blocks == nil {
 			return
 		}
 		if o.RepoOnly && !g.p.IsRepoFunc(f) {
 			return
 		}
-		seen[f] = true
-		ri.Parent[f] = from
-		ri.Via[f] = via
-		ri.Order = append(ri.Order, f)
+		var site ssa.CallInstruction
+		if ci, ok := via.(ssa.CallInstruction); ok && hasFuncParam(f) {
+			site = ci
+		}
+		if !seenF[f] {
+			seenF[f] = true
+			ri.Parent[f] = from
+			ri.Via[f] = via
+			ri.Order = append(ri.Order, f)
+		} else if site == nil {
+			return
+		}
+		if site != nil {
+			k := fmt.Sprintf("%p|%p", f, site)
+			if seenCtx[k] {
+				return
+			}
+			seenCtx[k] = true
+		}
 		if o.Stop != nil && o.Stop(f) {
 			return
 		}
-		q = append(q, f)
+		q = append(q, item{f, site})
 	}
 	for _, r := range roots {
 		push(r, nil, nil)
 	}
 	for len(q) > 0 {
-		f := q[0]
+		it := q[0]
 		q = q[1:]
+		f := it.f
 		for _, b := range f.Blocks {
 			for _, in := range b.Instrs {
 				switch x := in.(type) {
@@ -443,7 +481,28 @@ func (g *callGraph) Reach(roots []*ssa.Function, o ReachOpts) *ReachInfo {
 					if _, isGo := x.(*ssa.Go); isGo && o.SyncOnly {
 						continue
 					}
-					fns, _ := g.Callees(x)
+					var fns []*ssa.Function
+					if pr, isParam := x.Common().Value.(*ssa.Parameter); isParam && !x.Common().IsInvoke() && it.site != nil {
+						idx := -1
+						for i, fp := range f.Params {
+							if fp == pr {
+								idx = i
+							}
+						}
+						sc := it.site.Common()
+						ai := idx
+						if sc.IsInvoke() {
+							ai = idx - 1
+						}
+						if ai >= 0 && ai < len(sc.Args) {
+							for fn := range g.funcValue(sc.Args[ai]).fns {
+								fns = append(fns, fn)
+							}
+							sort.Slice(fns, func(i, j int) bool { return fns[i].Pos() < fns[j].Pos() })
+						}
+					} else {
+						fns, _ = g.Callees(x)
+					}
 					for _, c := range fns {
 						push(c, f, in)
 					}
